@@ -88,6 +88,7 @@ def r2(ctx: Ctx) -> None:
         ps = [e for e in stores(p, "price") if key(strip_ver(e.base)) == "order"]
         others = [e for e in stores(p) if key(strip_ver(e.base)) == "order" and e.attr != "price"]
         if not ps and not others:
+            _unclamped_path_justified(ctx, h, p, mk)
             continue
         m += 1
         v = strip_ver(ps[-1].value) if ps else NONE
@@ -99,6 +100,37 @@ def r2(ctx: Ctx) -> None:
         rr = stores(p, "trigger_change_rate")
         ctx.check(len(rr) == 1 and key(strip_ver(rr[0].value)) == "settings['triggerChangeRate']", st, st.node, f"{PLR}: band width is the configured rate", "settings['triggerChangeRate']", "; ".join(short(e.value) for e in rr))
         break
+
+
+def _unclamped_path_justified(ctx: Ctx, h, p: Path, mk) -> None:
+    """a path of the handler that leaves the price alone: only for a non-target market, a market order
+    (price is None / kind is MARKET_ORDER), a disabled rule, or a price that already equals the clamped one"""
+    from .events import occurrence_market_keys, target_guard
+
+    mkeys = list(mk) + occurrence_market_keys(h)
+    op = ("attr", ("sym", "order"), "price")
+    why = None
+    suspicious = None
+    for c, pol, node in p.conds:
+        c = strip_ver(c)
+        if target_guard(c, True, mkeys, {}) and pol is False:
+            why = "not a target market"
+        elif c == ("cmp", "is", op, NONE) and pol:
+            why = "market order (price is None)"
+        elif c[0] == "cmp" and c[1] == "==" and pol and op in (c[2], c[3]) and any(x[0] == "call" and key(x[1]) == "self.get_limited_price" for x in (c[2], c[3])):
+            why = "already equal to the clamped price"
+        elif c[0] == "cmp" and c[1] == "==" and pol and "MARKET_ORDER" in key(c) and "order.kind" in key(c):
+            why = "market order (kind)"
+        elif key(c) == "self.is_enabled" and pol is False:
+            why = "rule disabled"
+        elif c == op and pol is False:
+            suspicious = "`not order.price` also holds for a limit price of 0.0"
+    if why is not None:
+        ctx.holds(h, h.node, "a path that leaves the price alone is one where nothing has to be clamped", "non-target / market order / already in band", why)
+    elif suspicious is not None:
+        ctx.violated(h, h.node, "a limit order on a target market never passes unclamped", "skip only when `order.price is None`", suspicious)
+    else:
+        ctx.unrec(h, h.node, "a path of the handler leaves the price alone", "the reason is none of: non-target market, market order, disabled rule, price already clamped", p.describe()[:200])
 
 
 def _sub_ref(t: Term, ref_key: str) -> Term:
@@ -175,3 +207,11 @@ def h2(ctx: Ctx) -> None:
     from .c13 import r5 as registration_rule
 
     registration_rule(ctx)
+
+
+@rule("C15.H3", "mechanism shared with C13: the before-order trigger reaches every registered hook, and hooks are registered as declared", "T6 + T7 (same rules as C13.R2 row order/before and C13.R4)", floor=8)
+def h3(ctx: Ctx) -> None:
+    from .c13 import check_registration, check_triggers
+
+    check_triggers(ctx, {("order", "before")})
+    check_registration(ctx)
